@@ -67,6 +67,7 @@ def run(chk: Check) -> None:
     run_comma_lists_stripped(chk, ix)
     run_glob_stars_span_components(chk, ix)
     run_sections_inherit_from_parents(chk, ix)
+    run_repeated_patterns_move_to_the_end(chk, ix)
     O = options_attrs(ix)
     mopt = ix.module("mypy.options")
     mcfg = ix.module("mypy.config_parser")
@@ -640,3 +641,38 @@ def run_sections_inherit_from_parents(chk: Check, ix) -> None:
                 r13.violation(key, f.loc(a), f"the base options are {[norm(d)[:60] for d in defs]}: for some keys the parents' settings (wildcard sections that cover the key, matching unstructured globs) are not inherited, e.g. `[mypy-foo.*] disallow_untyped_defs = True` is lost for module `foo` as soon as an unrelated `[mypy-foo]` section exists")
     if n < 1:
         raise AnalysisError("build_per_module_cache: no store into _per_module_cache[key] inside a loop found")
+
+
+def run_repeated_patterns_move_to_the_end(chk: Check, ix) -> None:
+    """R17.14: the order in which patterns are remembered is the order of their last section in the file."""
+    r14 = chk.rule("R17.14", "Options.build_per_module_cache takes the precedence between unstructured patterns ('last in the file wins') from the iteration order of `per_module_options` (a dict: `[k for k in self.per_module_options.keys() if '*' in k[:-1]]`). A Python dict keeps the position of a key that is assigned again, so config_parser's store `options.per_module_options[glob] = updates` is preceded, in the same block, by the removal of the key (`pop(glob, ...)` / `del`): otherwise a pattern named in an early comma list and again in the last section is applied before the sections in between", floor=1)
+    b = ix.module("mypy.options")
+    bp = ix.func("mypy.options.Options.build_per_module_cache")
+    if not any(isinstance(c, ast.Call) and norm(c.func).endswith("per_module_options.keys") for c in ast.walk(bp.node)) and "per_module_options" not in norm(bp.node):
+        raise AnalysisError("build_per_module_cache no longer iterates per_module_options: R17.14 needs re-reading")
+    m = ix.module("mypy.config_parser")
+    n = 0
+    for f in m.functions.values():
+        par = f.module.parents()
+        for a in ast.walk(f.node):
+            if not (isinstance(a, ast.Assign) and isinstance(a.targets[0], ast.Subscript) and norm(a.targets[0].value).endswith("per_module_options")):
+                continue
+            n += 1
+            k = norm(a.targets[0].slice)
+            block = par[a]
+            body = next((getattr(block, fld) for fld in ("body", "orelse", "finalbody") if a in getattr(block, fld, [])), [])
+            before = body[: body.index(a)] if a in body else []
+            removed = False
+            for st in before:
+                for x in ast.walk(st):
+                    if isinstance(x, ast.Call) and isinstance(x.func, ast.Attribute) and x.func.attr == "pop" and norm(x.func.value).endswith("per_module_options") and x.args and norm(x.args[0]) == k:
+                        removed = True
+                    if isinstance(x, ast.Delete) and any(isinstance(t, ast.Subscript) and norm(t.value).endswith("per_module_options") and norm(t.slice) == k for t in x.targets):
+                        removed = True
+            key = f"config_parser.{f.name}: a pattern that is named again moves to the end of per_module_options"
+            if removed:
+                r14.ok(key, f.loc(a))
+            else:
+                r14.violation(key, f.loc(a), f"`{norm(a)}` re-assigns an existing key in place: with `[mypy-*.b, zz]`, `[mypy-p.*.b]`, `[mypy-*.b]` the pattern `*.b` keeps its first position and `p.*.b` is applied after it, although the last matching section in the file is `[mypy-*.b]`")
+    if n < 1:
+        raise AnalysisError("config_parser: no store into per_module_options[...] found")
